@@ -1,7 +1,7 @@
 (* C09 - Path hashes distinguish every difference in a file tree.
    This file holds only the statement, the property theorems and their non-vacuity examples.
    H is the hash (sha1, sha256, ...): any collision-free function on byte strings. *)
-From PlzV Require Import Base.Harness Model.C09 Proof.C09.
+From PlzV Require Import Base.Harness Model.C09 Proof.C09 Proof.C09_Top Proof.C09_Memo.
 
 (* Two different trees (contents, names, positions, link targets, kinds: `a <> b` on canonical
    presentations covers every item the statement lists) never get the same recorded hash. *)
@@ -30,13 +30,51 @@ Theorem C09_partial :
         a file and a symlink collide only when the content is \x02 followed by the target *)
   /\ ((forall c c', c <> c' -> H (stream (File c)) <> H (stream (File c')))
       /\ (forall t t', t <> t' -> H (stream (Link t)) <> H (stream (Link t')))
-      /\ (forall c t, c <> 2%N :: t -> H (stream (File c)) <> H (stream (Link t)))).
+      /\ (forall c t, c <> 2%N :: t -> H (stream (File c)) <> H (stream (Link t))))
+  (* 5. paths that are symlinks with an absolute target (relativised textually under the root,
+        dereferenced outside it) or symlinks outside the repo: two paths that differ as trees and
+        are hashed without error have equal hashes exactly when top_class names a class - one of
+        the six above on the equivalent in-repo nodes, or one of four of their own *)
+  /\ (forall root x y vx vy, top_wf x = true -> top_wf y = true -> top_differs x y = true ->
+        top_stream root x = Some vx -> top_stream root y = Some vy ->
+        (top_class root x y = None -> H vx <> H vy)
+        /\ (forall d, top_class root x y = Some d -> H vx = H vy))
+  (* 6. in particular a symlink leaving the repo never hashes like the regular file with the bytes
+        it points to *)
+  /\ (forall root t c v, link_in_repo root [] t = false ->
+        top_stream root (TAbsLink t (Some c)) = Some v -> H v <> H (stream (File c))).
 Proof.
   exact (fun H H_inj => conj (unclassified_pairs_hash_apart H H_inj)
                        (conj (classified_hash_equal H)
-                       (conj (single_change_hash H H_inj) (nondir_injective H H_inj)))).
+                       (conj (single_change_hash H H_inj)
+                       (conj (nondir_injective H H_inj)
+                       (conj (top_pairs H H_inj) (external_link_vs_same_file H H_inj)))))).
 Qed.
 Print Assumptions C09_partial.
+
+(* The hash Please RECORDS for a path: the memo of one long-lived PathHasher, driven by ANY sequence of
+   Hash / MoveHash / CopyHash / SetHash / moveOutput calls interleaved with ANY changes of the files,
+   from the empty memo.  Protocol (`follows`): Hash(p, recalc=false) is never called on a path whose
+   status is GStale - i.e. whose content was replaced or removed under a valid entry, whose digest
+   was set wrongly, or which received a digest moved/copied from a path with different content -
+   before a Hash(p, recalc=true) or a MoveHash away from a plz-out/tmp path cleared it.
+   Then (a) every Hash answers with the stream of the tree that is at the path at that moment
+   (or fails exactly when nothing is there), whether memoised or not, and (b) at the end every memo
+   entry the protocol vouches for is the stream of the tree now at its path.
+   The digest recorded is H of that stream, so clauses 1-6 apply to it. *)
+Theorem C09_memo :
+  forall root ops, follows root mstate0 [] ops = true ->
+    Forall (fun e : op * obs * bool * mstate =>
+              match fst (fst (fst e)), snd (fst (fst e)) with
+              | OHash p _, ObsVal v _ =>
+                  exists t, aget (files (snd e)) (ensure_relative root p) = Some t /\ v = stream t
+              | OHash p _, ObsErr => aget (files (snd e)) (ensure_relative root p) = None
+              | _, _ => True
+              end)
+           (exec root mstate0 [] ops)
+    /\ Inv (fst (run root mstate0 [] ops)) (snd (run root mstate0 [] ops)).
+Proof. exact memo_sound. Qed.
+Print Assumptions C09_memo.
 
 (* ---- non-vacuity ---- *)
 (* the refutation has a witness in every class, not only the one used above *)
@@ -74,3 +112,31 @@ Proof.
     constructor. discriminate.
   - apply Here. right. exact (AddLink [(s "a", File (s "x"))] (s "l") (s "a") []).
 Qed.
+
+(* clause 5: the four classes of top-level symlinks are inhabited, and an external link next to the
+   regular file with the same bytes is a pair the theorem separates *)
+Example C09_partial_nonvacuous_5 :
+  top_collides (s "/r") (TAbsLink (s "/o/f1") (Some (s "tool"))) (TAbsLink (s "/o/f2") (Some (s "tool"))) TExtTarget
+  /\ top_collides (s "/r") (TAbsLink (s "/o/f3") (Some (s "a"))) (TNode (Link (s "a"))) TExtContentAsTarget
+  /\ top_collides (s "/r") (TAbsLink (s "/r/a") None) (TNode (Link (s "a"))) TRootStripped
+  /\ top_collides (s "/r") (TAbsLink (s "/r2/x") None) (TNode (Link (s "2/x"))) TSiblingStripped
+  /\ (let x := TAbsLink (s "/o/f1") (Some (s "tool")) in
+      let y := TNode (File (s "tool")) in
+      top_wf x = true /\ top_wf y = true /\ top_differs x y = true /\ top_class (s "/r") x y = None
+      /\ top_stream (s "/r") x <> top_stream (s "/r") y).
+Proof.
+  exact (conj witness_ext_target (conj witness_ext_content (conj witness_root_stripped
+        (conj witness_sibling ext_link_vs_file_unclassified)))).
+Qed.
+
+(* C09_memo: build.moveOutput run twice for the same temporary path is inside the protocol and the
+   second Hash of the temporary path answers for the new content; the protocol hypothesis cannot be
+   dropped (rewriting under a valid entry and asking again without recalc returns the old hash) *)
+Example C09_memo_nonvacuous :
+  (follows (s "/r") mstate0 [] move_output_twice = true
+   /\ map (fun e => snd (fst (fst e))) (exec (s "/r") mstate0 [] move_output_twice)
+      = [ObsNone; ObsVal (s "one") true; ObsNone; ObsNone; ObsVal (s "two") true; ObsVal (s "one") false])
+  /\ (follows (s "/r") mstate0 [] stale_demo = false
+      /\ map (fun e => snd (fst (fst e))) (exec (s "/r") mstate0 [] stale_demo)
+         = [ObsNone; ObsVal (s "v1") true; ObsNone; ObsVal (s "v1") false]).
+Proof. exact (conj move_output_twice_ok protocol_needed). Qed.
